@@ -2,7 +2,7 @@
 import sys
 import common as C
 
-CRATES = {"fh-core": ["fh-codec"]}
+CRATES = {"fh-core": ["fh-codec"], "fh-rep": ["fh-rep"]}
 bad = 0
 for crate, bins in CRATES.items():
     ok, err = C.cargo_build(crate, bins)
